@@ -38,3 +38,7 @@ add("C08", "model_checking",
     "Every sequence of up to N directive shapes is rendered in every layout of a layout alphabet (separators, CRLF, trailing blanks, missing final newline, comment/heading/blank lines between directives, annotation order) and formatted by the real formatter; the result must parse to a tree with identical leaf texts, the concatenated inter-directive text must be byte-identical, and formatting again must change nothing; parseable C07 token strings are included, and the `format` command is run on real files to check that unparseable files stay untouched.",
     "Trusted: reflective leaf-text extraction. Layouts outside the alphabet are not covered.",
     "bounded exhaustive input enumeration with re-parse, gap-equality and idempotence oracles", "DESIGN.md 4 C08")
+add("C17", "model_checking",
+    "Tables are built through the real table API for every ordered pair and triple of 39 signed amounts (magnitudes 1e-8 to 1e15, every rounding boundary) x 5 digit settings x --thousands x ASCII/umlaut/CJK/long names and rendered by the real text and CSV renderers; a geometry-checking reader verifies equal line width and aligned separators, every numeric cell is compared with a big-rational half-away-from-zero reference with exact comma grouping, CSV cells exactly; the same amounts are placed in journals and `balance` text and --csv outputs compared row by row.",
+    "Trusted: reference formatter (checks/c17.go), text table reader. Display width in terminal cells is not modelled (runes, as the statement's mechanism says).",
+    "bounded exhaustive input x configuration enumeration against a reference formatter", "DESIGN.md 4 C17, A.10")
